@@ -328,6 +328,7 @@ def apalache_inductive(ctx):
         rec['status'] = 'apalache-mc not found: obligations not discharged'
         return
     wd = tlc.workdir('apa')
+    apa_env = dict(os.environ, JAVA_IO_TMPDIR=wd, TMPDIR=wd)        # SANY's scratch directories stay inside the run's own directory
     try:
         shutil.copy(os.path.join(tlc.TLA, 'AdbAllocInd.tla'), wd)
         with open(os.path.join(wd, 'MCAllocInd.tla'), 'w') as f:
@@ -339,7 +340,7 @@ def apalache_inductive(ctx):
             try:
                 p = subprocess.run([exe, 'check', '--cinit=ConstInit', '--init=' + init, '--inv=' + inv, '--length=%d' % length,
                                     '--out-dir=' + os.path.join(wd, 'out'), 'MCAllocInd.tla'], cwd=wd, stdout=subprocess.PIPE,
-                                   stderr=subprocess.STDOUT, timeout=900)
+                                   stderr=subprocess.STDOUT, timeout=900, env=apa_env)
                 out, rc = p.stdout.decode('utf8', 'replace'), p.returncode
             except subprocess.TimeoutExpired:
                 out, rc = '', 'timeout'
@@ -362,7 +363,7 @@ def apalache_inductive(ctx):
             shutil.copy(os.path.join(wd, 'MCAllocInd.tla'), mut)
             try:
                 p = subprocess.run([exe, 'check', '--cinit=ConstInit', '--init=IndInv', '--inv=IndInv', '--length=1', '--out-dir=' + os.path.join(mut, 'out'),
-                                    'MCAllocInd.tla'], cwd=mut, stdout=subprocess.PIPE, stderr=subprocess.STDOUT, timeout=900)
+                                    'MCAllocInd.tla'], cwd=mut, stdout=subprocess.PIPE, stderr=subprocess.STDOUT, timeout=900, env=apa_env)
                 rc = p.returncode
             except subprocess.TimeoutExpired:
                 rc = 'timeout'
